@@ -209,9 +209,21 @@ impl Conn {
                 }
             }
             if Instant::now() > deadline {
-                return json!({"cls":"noreply","msg":"no reply within 3 s"});
+                return json!({"cls":"noreply","msg":"no reply within 10 s"});
             }
-            self.fill(Duration::from_millis(5));
+            if self.at_eof(Duration::from_millis(5)) && self.buffered() == 0 {
+                // the server closed the connection without answering
+                return match &err {
+                    Some(e) => json!({"cls":"error","msg":e}),
+                    None => json!({"cls":"closed","msg":"connection closed by the server"}),
+                };
+            }
+        }
+    }
+
+    fn buffered(&self) -> usize {
+        match self {
+            Conn::Tcp { buf, .. } | Conn::Ws { buf, .. } => buf.len(),
         }
     }
 
@@ -304,7 +316,9 @@ impl Conn {
             if done || Instant::now() > deadline {
                 return out;
             }
-            self.fill(Duration::from_millis(5));
+            if self.at_eof(Duration::from_millis(5)) && self.buffered() == 0 {
+                return out;     // the server has closed this connection: nothing more can arrive on it
+            }
         }
     }
 
